@@ -263,6 +263,12 @@ func standardRun(t *testing.T, seed uint64, p *Plan, out *Outcome, h runHooks) *
 		rr2 := s.Run(s.AllTasksDone)
 		out.Reason = rr.Reason + "+" + rr2.Reason
 	}
+	// calls still running now are hung: closing the client below would release them and hide it
+	for _, t := range s.Tasks {
+		if rec := t.Running(); rec != nil {
+			rec.Hung = true
+		}
+	}
 	if h.afterMain != nil {
 		h.afterMain(e)
 	}
@@ -333,7 +339,7 @@ func (e *env) eachCall(fn func(task int, spec CallSpec, rec *sched.CallRec, res 
 		}
 		for _, rec := range t.Recs {
 			var res *CallResult
-			if rec.Done {
+			if rec.Done && !rec.Hung {
 				res, _ = rec.Result.(*CallResult)
 			}
 			fn(ti, e.plan.Tasks[ti][rec.Index], rec, res)
